@@ -1106,3 +1106,83 @@ func c08r12(rc *core.RC) {
 		rc.Unknown("vm/pointer-typed-heads", token.NoPos, "found %d pointer-typed struct head handlers", n)
 	}
 }
+
+// ---- C08.R13 memory returned by a user's marshaler is never written ----
+
+// The slice a MarshalJSON / MarshalText method returns belongs to the user's value (it may be a
+// sub-slice of a buffer the value keeps). The encoder may read it and copy it, but must not write
+// through it: not append to it (append writes into spare capacity), not store an element, not use it
+// as the destination of copy.
+func c08r13(rc *core.RC) {
+	p := rc.P
+	prog := p.SSA()
+	_ = prog
+	n := 0
+	for _, short := range []string{"encoder", "vm", "vm_indent", "vm_color", "vm_color_indent"} {
+		for _, fd := range p.Funcs(short) {
+			if fd.Body == nil {
+				continue
+			}
+			name := fd.Name.Name
+			if fd.Recv != nil {
+				name = core.RecvString(fd.Recv.List[0].Type) + "." + name
+			}
+			fn := p.SSAFunc(short, name)
+			if fn == nil {
+				continue
+			}
+			var seeds []ssa.Value
+			for _, b := range fn.Blocks {
+				for _, ins := range b.Instrs {
+					if ex, ok := ins.(*ssa.Extract); ok && ex.Index == 0 {
+						if c, isCall := ex.Tuple.(*ssa.Call); isCall {
+							if m := core.InvokeMethodName(c.Common()); m == "MarshalJSON" || m == "MarshalText" {
+								seeds = append(seeds, ex)
+							}
+						}
+					}
+				}
+			}
+			if len(seeds) == 0 {
+				continue
+			}
+			fname := p.FuncName(fd)
+			rc.Touch(fname)
+			alias := core.AliasClosure(fn, seeds)
+			k := 0
+			for range seeds {
+				n++
+			}
+			bad := false
+			for _, b := range fn.Blocks {
+				for _, ins := range b.Instrs {
+					switch x := ins.(type) {
+					case *ssa.Call:
+						bi, ok := x.Common().Value.(*ssa.Builtin)
+						if !ok {
+							continue
+						}
+						args := x.Common().Args
+						if (bi.Name() == "append" || bi.Name() == "copy") && len(args) > 0 && alias[args[0]] {
+							k++
+							bad = true
+							rc.Bad(fmt.Sprintf("%s/marshaler-result-written#%d", fname, k), core.SSAPos(x), "the slice returned by the user's MarshalJSON/MarshalText is the destination of %s: that writes into memory the user's value owns (append writes into spare capacity)", bi.Name())
+						}
+					case *ssa.Store:
+						if ia, ok := x.Addr.(*ssa.IndexAddr); ok && alias[ia.X] {
+							k++
+							bad = true
+							rc.Bad(fmt.Sprintf("%s/marshaler-result-written#%d", fname, k), core.SSAPos(x), "an element of the slice returned by the user's MarshalJSON/MarshalText is overwritten")
+						}
+					}
+				}
+			}
+			if !bad {
+				rc.OK(fname+"/marshaler-result-read-only", fd.Pos(), "%d marshaler result(s): only read or copied", len(seeds))
+			}
+		}
+	}
+	if n < 4 {
+		rc.Unknown("encoder/marshaler-calls", token.NoPos, "found %d calls of user marshalers (8 confirmed)", n)
+	}
+}
